@@ -29,6 +29,11 @@ Theorem c14_dist_never_fails_u128 : forall c cur dur,
   pending 128 (10 ^ 20) c cur dur = Ok (expected (10 ^ 20) c cur dur, cur - expected (10 ^ 20) c cur dur).
 Proof. exact no_overflow_u128. Qed.
 
+Theorem c14_execute_never_fails_u128 : forall c s now,
+  0 <= rate c < 2 ^ 128 -> 0 <= minp c -> wf_st 128 s -> 0 <= now < 2 ^ 64 ->
+  exists rep s', execute 128 (10 ^ 20) c s now = (Ok rep, s').
+Proof. exact execute_never_fails_u128. Qed.
+
 (* the action: report and state after a successful distribution *)
 Theorem c14_execute_spec : forall w, 1 <= w -> forall unit, 0 < unit -> forall c s now rep s',
   wf_cfg c -> wf_st w s ->
@@ -71,7 +76,7 @@ Theorem c14_split_never_distributes_more : forall unit, 0 < unit -> forall c cur
   wf_cfg c -> 0 <= cur -> 0 <= d1 -> 0 <= d2 ->
   let e1 := expected unit c cur d1 in
   e1 + expected unit c (cur - e1) d2 <= expected unit c cur (d1 + d2).
-Proof. intros unit Hu. exact (split_le unit Hu). Qed.
+Proof. intros unit Hu. exact (split_le 1 ltac:(lia) unit Hu). Qed.
 
 (* non-vacuity *)
 Example c14_ex_partial :
